@@ -37,7 +37,7 @@ RULE = (
     "class} x variant {transitions in State(on=...), transitions as Transition objects / builder.transition() (candidate lists as several objects in order), the objects combined with | left-nested / right-nested / balanced}: deep "
     "fingerprint + trace equivalence with create_machine(config); (B) two builds from one definition: run the first to "
     "closure, the second must fingerprint like a fresh build; mutate every dict handed to State and rebuild; (C) discovery: "
-    "name shapes {doIt, do_it, doIt2, do2nd, HTTPGet, x, log, assign, raise, spawn_worker} x role {action, guard, service} x "
+    "name shapes {doIt, do_it, doIt2, do2nd, HTTPGet, x, log, assign, raise, sendTo, forwardTo, spawn_worker} x role {action, guard, service} x "
     "provider {module function, provider method, MachineLogic subclass method} x provider spelling {as referenced, other "
     "casing, both}: creation binds and the NAMED implementation runs, or creation raises ImplementationMissingError; "
     "composite guards / stateIn / built-ins / spawn_ directives never demanded; distinct_nontrivial = distinct cases"
@@ -414,7 +414,7 @@ def check_translation(name, cfg, style, variant, res):
 
 
 # ------------------------------------------------------------------ (C) discovery
-SHAPES = ["doIt", "do_it", "doIt2", "do2nd", "HTTPGet", "x", "log", "assign", "raise", "spawn_worker"]
+SHAPES = ["doIt", "do_it", "doIt2", "do2nd", "HTTPGet", "x", "log", "assign", "raise", "sendTo", "forwardTo", "spawn_worker"]
 
 
 def other_casing(name: str) -> Optional[str]:
@@ -450,7 +450,7 @@ def discovery_cfg(name: str, role: str) -> Dict[str, Any]:
 def run_discovery(res):
     for name in SHAPES:
         for role in ("action", "guard", "service"):
-            if role != "action" and name in ("log", "assign", "raise", "spawn_worker"):
+            if role != "action" and name in ("log", "assign", "raise", "sendTo", "forwardTo", "spawn_worker"):
                 continue
             for provider in ("module", "instance", "logic-subclass"):
                 alt = other_casing(name)
@@ -543,7 +543,7 @@ def run_discovery(res):
                     except XStateMachineError:
                         continue
                     except Exception as exc:  # noqa: BLE001
-                        if name in ("assign", "raise", "log") or name.startswith("spawn_"):
+                        if name in ("assign", "raise", "log", "sendTo", "forwardTo") or name.startswith("spawn_"):
                             continue
                         res["violations"].append(dict(signature=f"C19|run-raw-{type(exc).__name__}|{role}|{provider}", clause="raw-exception",
                                                       what=f"run raised raw {exc!r}; {case}", size=1, replay=dict(kind="discovery", case=case)))
@@ -552,6 +552,10 @@ def run_discovery(res):
                     if supplied_exact and calls[:1] != [name] and not name.startswith("spawn_"):
                         res["violations"].append(dict(signature=f"C19|named-implementation-did-not-run|{role}|{provider}", clause="wrong-implementation",
                                                       what=f"the user-supplied '{name}' did not run (calls {calls}); {case}", size=1,
+                                                      replay=dict(kind="discovery", case=case)))
+                    if defs and not calls and not name.startswith("spawn_") and not (provider == "logic-subclass" and not supplied_exact):
+                        res["violations"].append(dict(signature=f"C19|supplied-implementation-did-not-run|{role}|{provider}", clause="wrong-implementation",
+                                                      what=f"an implementation was supplied ({sorted(defs)}) but none of them ran - the built-in / nothing did; {case}", size=1,
                                                       replay=dict(kind="discovery", case=case)))
                     if not supplied_exact and calls and calls[0] != alt:
                         res["violations"].append(dict(signature=f"C19|unexpected-implementation-ran|{role}|{provider}", clause="wrong-implementation",
